@@ -117,7 +117,11 @@ fn run_case(seed: u64, index: u64, rep: &mut Report, kernel_thread: bool) {
         }
     };
     let sq = ring.sq();
-    let pool = if rng.chance(2, 3) { alloc::a10(|| ReadBufPool::new(sq.clone(), *rng.pick(&[2u16, 4, 8]), 64)).ok() } else { None };
+    let pool_size = *rng.pick(&[2u16, 4, 8]);
+    let pool = if rng.chance(2, 3) { alloc::a10(|| ReadBufPool::new(sq.clone(), pool_size, 64)).ok() } else { None };
+    // A pool operation was abandoned (dropped in flight, or a multishot dropped with results nobody
+    // collected): buffers lost that way are known finding D5 and make the conservation check below moot.
+    let mut pool_op_abandoned = false;
     let mut chans: Vec<Chan> = Vec::new();
     let n_chans = 2 + rng.below(3) as usize;
     for _ in 0..n_chans {
@@ -386,6 +390,9 @@ fn run_case(seed: u64, index: u64, rep: &mut Report, kernel_thread: bool) {
             let i = rng.below(slots.len() as u64) as usize;
             if let Some(op) = slots[i].op.take() {
                 let c = slots[i].chan;
+                if slots[i].polled && slots[i].kind.needs_pool() && (!slots[i].done || matches!(slots[i].kind, Kind_::MultishotRead | Kind_::MultishotRecv)) {
+                    pool_op_abandoned = true;
+                }
                 if slots[i].polled && !slots[i].done {
                     dropped_in_flight += 1;
                     if slots[i].reads {
@@ -418,6 +425,59 @@ fn run_case(seed: u64, index: u64, rep: &mut Report, kernel_thread: bool) {
     for (c, ch) in chans.iter().enumerate() {
         if ch.kind != ChanKind::PipeIn && !ch.write_tainted && !writes_running && ch.received < ch.claimed {
             found.push(("C02", "real:write-count-exceeds-bytes-delivered".into(), format!("channel {c}: resolved writes/sends claim {} bytes, the peer received {}", ch.claimed, ch.received)));
+        }
+    }
+    // Pool buffers are conserved: with no ReadBuf alive and no pool operation in flight (and none
+    // abandoned before) the kernel can use every buffer of the pool again.
+    let pool_ops_live = slots.iter().any(|s| s.op.is_some() && s.kind.needs_pool());
+    if let (Some(_), false, false, false) = (pool.as_ref(), pool_op_abandoned, pool_ops_live, fd_watchdog) {
+        let k = std::mem::take(&mut kept);
+        alloc::a10(|| drop(k));
+        // A channel a10 can read from that has no reader of its own right now.
+        let free_chan = (0..chans.len()).find(|c| chans[*c].kind != ChanKind::PipeOut && !chans[*c].reader_active && !chans[*c].read_tainted && !slots.iter().any(|s| s.op.is_some() && s.reads && s.chan == *c));
+        if let Some(c) = free_chan {
+            let mut bufs: Vec<Outcome> = Vec::new();
+            let mut lost = None;
+            for i in 0..pool_size {
+                if feed(&mut chans[c], 8) == 0 && chans[c].unread.is_empty() {
+                    break;
+                }
+                let kind = if chans[c].kind == ChanKind::Sock { Kind_::RecvPool } else { Kind_::ReadPool };
+                let env = Env { sq: sq.clone(), fd: unsafe { &*chans[c].afd }, dfd: None, pool: pool.clone(), direct_enabled: false };
+                let mut op = alloc::a10(|| make(kind, &env, &mut rng));
+                alloc::a10(|| drop(env));
+                match drive(&mut op, &mut ring, &mut cx) {
+                    Some(o) => {
+                        match o.res {
+                            Err(e) => {
+                                lost = Some((i, e));
+                            }
+                            Ok(_) => {
+                                if let Some(d) = o.data.as_ref() {
+                                    let n = d.len().min(chans[c].unread.len());
+                                    chans[c].unread.drain(..n);
+                                }
+                            }
+                        }
+                        bufs.push(o);
+                    }
+                    None => {
+                        fd_watchdog = true;
+                        std::mem::forget(op);
+                        break;
+                    }
+                }
+                alloc::a10(|| drop(op));
+                if lost.is_some() {
+                    break;
+                }
+            }
+            if let Some((i, e)) = lost {
+                found.push(("C08", (if kernel_thread { "real:pool-buffer-lost:kernel-thread" } else { "real:pool-buffer-lost" }).into(), format!("with no ReadBuf alive and no pool operation in flight or abandoned, read #{i} of {pool_size} into the pool of {pool_size} buffers failed with errno {e}: a buffer was not given back")));
+            }
+            trace.push(format!("pool-refilled:{}", bufs.len()));
+            rep.cell(if bufs.len() == usize::from(pool_size) { "real-pool:refilled-completely" } else { "real-pool:refill-cut-short" });
+            alloc::a10(|| drop(bufs));
         }
     }
     // Direct descriptor slots are conserved: with every direct descriptor of the history
@@ -542,7 +602,8 @@ fn run_case(seed: u64, index: u64, rep: &mut Report, kernel_thread: bool) {
         };
         found.push((prop, sig, format!("{v:?}: memory freed during the history was modified afterwards (the real kernel completed an operation into it), or freed twice")));
     }
-    if !leaks.is_empty() {
+    // (An operation the watchdog gave up on was forgotten, not dropped: no leak verdict then.)
+    if !leaks.is_empty() && !fd_watchdog {
         // On a ring with a kernel submission thread the Ring's drop races with that thread
         // (known finding D14): keep the two apart.
         found.push(("C06", (if kernel_thread { "real:state-leak:kernel-thread" } else { "real:state-leak" }).into(), format!("{} block(s) allocated inside a10 (sizes {:?}) are still live after every operation, result, descriptor, queue handle and the Ring were dropped", leaks.len(), leaks.iter().map(|l| l.size).take(8).collect::<Vec<_>>())));
